@@ -493,3 +493,19 @@ Proof.
   - right. left. exists s. split; auto. lia.
   - destruct (c_iso (getc sh c)); repeat des_if; discriminate.
 Qed.
+
+Lemma commit_xor_rollback :
+  (forall cf sh s, s_pc (gets sh s) = CDecide ->
+     close_step cf sh s = xok (set_pc (upd_scope sh s (s_set_branch (Some (isnil (errs_of sh s))))) s CMark)) /\
+  (forall progs s1 s2 s b,
+     s_branch (gets (sh (run cfg_current s1 (init progs))) s) = Some b ->
+     s_branch (gets (sh (run cfg_current (s1 ++ s2) (init progs))) s) = Some b) /\
+  (forall progs sched s, let st := run cfg_current sched (init progs) in
+     s < length (scopes (sh st)) -> s_pc (gets (sh st) s) = CFinished ->
+     exists b, s_branch (gets (sh st) s) = Some b /\
+       close_word (log (sh st)) s = BC :: (if b then [BCo; Co; ACo] else [BR; Ro; AR]) ++ [AC]).
+Proof.
+  split. exact decide_step. split. exact branch_stable.
+  intros progs sched s st Hs F. destruct (event_grammar progs sched s Hs) as (_ & _ & _ & _ & G).
+  destruct (G F) as (b & E & W). exists b. split; auto. fold st in W. rewrite W. destruct b; reflexivity.
+Qed.
